@@ -398,7 +398,9 @@ def main(argv=None):
             print("HARNESS ERROR in %s: %s" % (check.ID, e))
         status = 2
     missing = [o for o in getattr(check, "REQUIRED_OUTCOMES", []) if not acc.outcomes.get(o)]
-    if missing and not herr:
+    any_unknown = any(name is None for (_, name) in acc.buckets)
+    if missing and not herr and not any_unknown:
+        # (when violations were found, an expected "good" outcome may be missing because of them: report those instead)
         print("HARNESS ERROR in %s: vacuous run, outcomes never observed: %s" % (check.ID, missing))
         status = 2
 
